@@ -193,6 +193,12 @@ def compute(cur_trees, pkg="shexer"):
                     c[n.id] += 1
         return c
     ref_uses, cur_uses = uses(ref_trees), uses(cur_trees)
+    rn.ref_receiver_pairs = {}
+    for m_, t_ in ref_trees.items():
+        for st_ in t_.body:
+            if isinstance(st_, ast.ClassDef):
+                rn.ref_receiver_pairs[(m_, st_.name)] = {(ast.unparse(x.value), x.attr) for x in ast.walk(st_) if isinstance(x, ast.Attribute)
+                                                       and not (isinstance(x.value, ast.Name) and x.value.id in ("self", "cls"))}
     ref_names, cur_names = all_names(ref_info), all_names(cur_info)
     rn.ref_names = ref_names
     stable = {x for x in ref_names & cur_names} | {"." + x for x in ref_names & cur_names}
@@ -356,9 +362,18 @@ def apply(cur_trees, rn):
                         for d in fn.decorator_list:           # @x.setter
                             if isinstance(d, ast.Attribute) and isinstance(d.value, ast.Name) and d.value.id in mm:
                                 d.value.id = mm[d.value.id]
+                ref_pairs = rn.ref_receiver_pairs.get((m, st.name), set()) if hasattr(rn, "ref_receiver_pairs") else set()
                 for n in ast.walk(st):
-                    if isinstance(n, ast.Attribute) and n.attr in mm and isinstance(n.value, ast.Name) and n.value.id in ("self", "cls"):
+                    if not (isinstance(n, ast.Attribute) and n.attr in mm):
+                        continue
+                    if isinstance(n.value, ast.Name) and n.value.id in ("self", "cls"):
                         n.attr = mm[n.attr]
+                    else:
+                        # another receiver (`self._owner.x`): the replaced member is meant when the reference class reads
+                        # `self._owner.<old>` and never `self._owner.<new>` (the owner class replaced it the same way)
+                        recv = ast.unparse(n.value)
+                        if (recv, mm[n.attr]) in ref_pairs and (recv, n.attr) not in ref_pairs:
+                            n.attr = mm[n.attr]
         for n in ast.walk(tree):
             if isinstance(n, ast.Attribute) and n.attr in unamb:
                 n.attr = unamb[n.attr]
@@ -414,9 +429,23 @@ def apply(cur_trees, rn):
                     for x in st.body:
                         if isinstance(x, (ast.FunctionDef, ast.AsyncFunctionDef)):
                             defs[st.name if x.name == "__init__" else x.name].append(x)
+        # calls on self inside the class whose method was changed: that method's own map (no other definition is meant)
+        done_calls = set()
+        for (m, c, f_), pm in rn.params.items():
+            if c is None:
+                continue
+            for st in cur_trees[m].body:
+                if isinstance(st, ast.ClassDef) and st.name == c:
+                    for n in ast.walk(st):
+                        if isinstance(n, ast.Call) and n.keywords and isinstance(n.func, ast.Attribute) and n.func.attr == f_ \
+                                and isinstance(n.func.value, ast.Name) and n.func.value.id == "self":
+                            for kw in n.keywords:
+                                if kw.arg in pm:
+                                    kw.arg = pm[kw.arg]
+                            done_calls.add(id(n))
         for m, tree in cur_trees.items():
             for n in ast.walk(tree):
-                if not isinstance(n, ast.Call) or not n.keywords:
+                if not isinstance(n, ast.Call) or not n.keywords or id(n) in done_calls:
                     continue
                 name = n.func.attr if isinstance(n.func, ast.Attribute) else n.func.id if isinstance(n.func, ast.Name) else None
                 if name not in by_callee:
